@@ -394,7 +394,7 @@ def c04(run):
                 put_at(a, v(Q), b), put_at(num(1), sub(v(Q), a), b), ('assign', ('lsub', sub(v(Q), a), b), 'plus', [num(1)], 'let'),
                 ('callstmt', MARK, [bin_('plus', a, b) if False else a]), ('pop', sub(v(Q), a), ('lsub', v(Q), b)),
                 ('mut', 'cut', st('a,b'), ('lsub', v(Q), a), b), ('if', bin_('plus', a, b), [say(st('mark'))], None),
-                ('push', bin_('plus', sub(v(Q), a), sub(v(Q), b)), None), ('input', ('lsub', sub(v(Q), a), b))]
+                ('input', ('lsub', sub(v(Q), a), b))]
     cases3 = []
     for stmt in two:
         p3 = [defs + [say(st('start')), stmt, say(st('mark'))]]
